@@ -156,6 +156,46 @@ def run(tier):
                 report.fail({"site": "reactor", "kind": "order-dependent", "tokens": "+".join(sorted(t for _, t in ms))},
                             {"first_writing": first[0], "other_writing": w, "results": [first[1], o],
                              "problem": "the result depends on the order in which the modifications are written"})
+    # fatty acyl groups in carbon notation  <p>[a][i]C<n>[={[c|t]<q>,...}]: the group is what Spec/Acyl.v says the
+    # designation stands for (geometry of the double bonds included)
+    acyl_cases = []
+    for _ in range(40 if tier == "quick" else 500):
+        n_c = r.randint(4, 26)
+        iso = r.random() < 0.15 and n_c >= 6
+        ante = iso and r.random() < 0.4
+        main = n_c - 1 if iso else n_c
+        limit = (n_c - (3 if ante else 2)) - 2 if iso else main
+        dbs, q = [], r.randint(2, 6)
+        while q + 2 <= limit and len(dbs) < 4 and r.random() < 0.75:
+            dbs.append(r.choice("ct" * 3 + "p") + str(q))
+            q += r.choice([2, 2, 3, 3, 4, 5])
+        dbs = [d[1:] if d[0] == "p" else d for d in dbs]
+        v = orc.drv.call("acyl", "1" if iso else "0", "1" if ante else "0", str(n_c), *dbs)
+        if v == "NOSPEC":
+            continue
+        tok, frag = v.split("\x1e")
+        s_ = r.choice(["Glc", "Gal", "Man", "GlcNAc", "Fuc"])
+        p_ = r.choice(SUGARS[s_])
+        conj = any(int(b_.lstrip("ct")) - int(a_.lstrip("ct")) == 2 and a_[0] in "ct" and b_[0] in "ct" for a_, b_ in zip(dbs, dbs[1:]))
+        acyl_cases.append((f"{s_}{p_}{tok}", s_, p_, tok, frag, conj, n_c < 10))
+    ao = dict(zip([c_[0] for c_ in acyl_cases], chem.convert_all([c_[0] for c_ in acyl_cases])))
+    bo = dict(zip(sorted(set(c_[1] for c_ in acyl_cases)), chem.convert_all(sorted(set(c_[1] for c_ in acyl_cases)))))
+    stats["carbon_notation"], stats["carbon_notation_not_converted"] = 0, 0
+    for nm, s_, p_, tok, frag, conj, n9 in acyl_cases:
+        o, b = ao[nm]["smiles"], bo[s_]["smiles"]
+        report.case(nm, True)
+        if not o:
+            # two geometries on conjugated double bonds are not always written by the library (empty result): counted, not judged
+            stats["carbon_notation_not_converted"] += 1
+            if not conj and not (n9 and "=" in tok):     # <p>C<n>={...} with a one-digit n is not read as a carbon chain by the library
+                report.fail({"site": "reactor", "kind": "empty", "token": "carbon-notation"}, {"input": nm, "exc": ao[nm]["exc"], "group": frag})
+            continue
+        v = orc.drv.call("modcheck", o, b, str(p_), frag)
+        stats["carbon_notation"] += 1
+        if v != "1":
+            report.fail({"site": "reactor", "kind": "wrong-molecule", "token": "carbon-notation", "conjugated": conj},
+                        {"input": nm, "observed": o, "unmodified": b, "group_by_Spec_Acyl": frag, "position": p_, "verdict": v,
+                         "problem": "the result is not the unmodified sugar whose position carries the fatty acyl group the carbon notation stands for (chain length, branch, position and cis/trans geometry of the double bonds)"})
     # the long notation  <p>-O-<group>-<Sugar> / <p>-N-<group>-<Sugar>  names the same molecule as the compact token for
     # every group that is carried by (or shares) the position's oxygen / nitrogen
     fgs = {x.split("\x1e")[0]: x.split("\x1e")[1] for x in orc.drv.call("fgtokens").split("\x1f") if x and "\x1e" in x}
@@ -194,7 +234,7 @@ def run(tier):
         report.fail({"site": "proof", "kind": "obligation-broken"},
                     {"no_failing_input": True, "what_no_longer_checks": broken, "theorems": names_thm})
     report.assumptions = ["the group a token stands for is the fragment of the regenerated functional_groups table; how it attaches (carried by the position's O/N, sharing its leading O, or replacing the heteroatom for N / halogen-led fragments) is Spec/Modify.fragment_kind",
-                          "E/Z geometry of fatty acyl double bonds is not compared"]
+                          "fatty acyl groups in carbon notation stand for what Spec/Acyl.v says (checked against the named fatty acids of the table by C04_named_fatty_acids_are_their_designation); cis/trans geometry is compared (Iso.ez_same)"]
     extra = {"rule": "single modifications: (quick) one hexose x every group token + every sugar x 18 tokens, (thorough) every sugar x every free position x every group token; sets of 2-4 modifications on one residue in up to 8 (all, if fewer) orders of writing",
              "group_tokens": len(toks), **stats, "print_assumptions": res.assumptions.get(f"Props/{PROP}.v", "").strip().splitlines()[-4:]}
     return report.finish("proof", ob, dis, names_thm, trusted=C.TRUSTED, extra=extra)
